@@ -163,6 +163,9 @@ fn c05_cluster(ctx: &VariantCtx) -> WorldOutcome {
         }
     })
 }
+fn c05_solo(ctx: &VariantCtx) -> WorldOutcome {
+    crate::soloworld::run(if ctx.tier == Tier::Thorough { 3 } else { 3 })
+}
 fn c10_hostile(ctx: &VariantCtx) -> WorldOutcome {
     cluster_variant(ctx, |p, t| {
         p.hostile = true;
@@ -208,7 +211,10 @@ fn c09_cluster(ctx: &VariantCtx) -> WorldOutcome {
 
 pub fn variants(property: &str, _tier: Tier) -> Vec<Variant> {
     match property {
-        "C05" => vec![Variant { name: "cluster-vote-rules", weight: 1, max_events: 400_000, run: c05_cluster }],
+        "C05" => vec![
+            Variant { name: "cluster-vote-rules", weight: 1, max_events: 400_000, run: c05_cluster },
+            Variant { name: "solo-node-adversarial-environment", weight: 3, max_events: 400_000, run: c05_solo },
+        ],
         "C10" => vec![
             Variant { name: "cluster-hostile", weight: 3, max_events: 400_000, run: c10_hostile },
             Variant { name: "cluster-hostile-then-live", weight: 1, max_events: 800_000, run: c10_hostile_then_live },
@@ -254,7 +260,7 @@ pub fn plan(property: &str, tier: Tier) -> Option<Plan> {
     let mut assumptions = COMMON_ASSUMPTIONS.to_vec();
     let (runs, budget_s, level, rule): (u64, u64, &str, &str) = match property {
         "C01" => (
-            if q { 400 } else { 20_000 },
+            if q { 320 } else { 20_000 },
             if q { 240 } else { 1800 },
             "exploration",
             "one case = one seeded execution of a 4-9 validator cluster of real nodes (stakes, Byzantine set <20% stake, crash set, disseminator, loss/dup/delay/partition/stall schedule, Byzantine voter/leader strategy all drawn from the seed); non-trivial = at least two correct nodes finalized a block and at least one fault or Byzantine action fired; distinct = distinct fingerprint of the abstracted per-node history (sequence of votes cast and blocks finalized/skipped per node)",
